@@ -372,3 +372,13 @@ func (c *Ctx) implementations(it types.Type, method string) []*types.Func {
 	}
 	return out
 }
+
+// declQuiet is decl without an obligation when the function does not exist.
+func (c *Ctx) declQuiet(name string) *declInfo {
+	fd, pk := c.P.FuncDecl(name)
+	if fd == nil || fd.Body == nil {
+		return nil
+	}
+	obj, _ := pk.TypesInfo.Defs[fd.Name].(*types.Func)
+	return &declInfo{fd, pk, obj, name}
+}
